@@ -39,7 +39,7 @@ from simkit import c12_multi as _multi  # noqa: E402
 from simkit import c12_misc as _misc  # noqa: E402
 
 PROPERTY = "C12"
-RUNS = {"quick": 10000, "thorough": 300_000}
+RUNS = {"quick": 10000, "thorough": 3_000_000}
 WALL = {"quick": 55, "thorough": 1500}
 BATCH = {"quick": 100, "thorough": 500}
 SELFTEST_RUNS = 10
